@@ -345,8 +345,11 @@ def native_replay_in(scratch, features, profile):
     panics = re.findall(r"panicked at ([^\n]*)\n([^\n]*)", txt)
     m = re.search(r"test result: (\w+)\. (\d+) passed; (\d+) failed", txt)
     sig = re.search(r"signal: \d+[^\n]*|SIGSEGV|SIGABRT|stack overflow", txt)
+    # a panic inside Kani's playback shim ("Not enough det vals found") means the run went
+    # *past* the recorded failure point and asked for more inputs: the failure did not reproduce
+    real = [(a, b) for a, b in panics if "concrete_playback.rs" not in a]
     return {"cmd": " ".join(cmd), "result": m.group(0) if m else None,
-            "failed_natively": bool(m and int(m.group(3)) > 0) or bool(sig),
+            "failed_natively": bool(m and int(m.group(3)) > 0 and real) or bool(sig),
             "signal": sig.group(0) if sig else None,
             "panics": [{"at": a, "msg": b} for a, b in panics][:6],
             "tail": "\n".join(l for l in txt.split("\n") if not l.startswith("warning")
